@@ -668,9 +668,10 @@ type Prog struct {
 	ops    []*Op
 	trace  []string // Coq terms (outcome, hash)
 	lines  []string // readable
-	prof   string
-	tags   map[string]bool
-	nontrv bool
+	prof    string
+	tags    map[string]bool
+	nontrv  bool
+	finding string
 }
 
 func (p *Prog) listRegs() []int {
@@ -1436,8 +1437,15 @@ func heapProgram(r *R, prof string) *Prog {
 					p.m.fail("TypeOfTF(%q) panicked", tf)
 				}
 				if (oc1 == "(Ret (OKind KUndefined))") != (oc2 == "Pan") {
-					if !(isSigilKeyCase(root, tf)) {
-						p.m.fail("TypeOfTF(%q)=%s but GetTF gives %s", tf, oc1, oc2)
+					p.m.fail("TypeOfTF(%q)=%s but GetTF gives %s", tf, oc1, oc2)
+				}
+				// a path with an empty segment (or shorter than one segment) must be Undefined
+				if hasEmptySegment(tf) && oc1 != "(Ret (OKind KUndefined))" {
+					if hasSigilKey(root) {
+						p.finding = "K1" // known finding: a key starting with a sigil is reachable through an empty segment
+						p.m.fail("TypeOfTF(%q)=%s on a path with an empty segment (object key starting with a sigil)", tf, oc1)
+					} else {
+						p.m.fail("TypeOfTF(%q)=%s on a path with an empty segment", tf, oc1)
 					}
 				}
 			} else {
@@ -1479,9 +1487,28 @@ func getTFAny(root any, tf string) any {
 	panic("not a container")
 }
 
-// K1: an object key starting with a sigil reached through an empty segment ("..x" on {".x":1})
-func isSigilKeyCase(root any, tf string) bool {
-	return strings.Contains(tf, "..") || strings.Contains(tf, ".#") || strings.Contains(tf, "#.") || strings.Contains(tf, "##")
+func hasEmptySegment(tf string) bool {
+	if len(tf) < 2 {
+		return true
+	}
+	last := tf[len(tf)-1]
+	return strings.Contains(tf, "..") || strings.Contains(tf, ".#") || strings.Contains(tf, "#.") || strings.Contains(tf, "##") || last == '.' || last == '#'
+}
+
+// K1: some object reachable from root has a key starting with a sigil (reachable through an empty segment: "..x" on {".x":1})
+func hasSigilKey(root any) bool {
+	acc := map[any]bool{}
+	reach(root, acc)
+	for c := range acc {
+		if ob, ok := c.(at.Object); ok {
+			for k := range ob.Dict() {
+				if len(k) > 0 && (k[0] == '.' || k[0] == '#') {
+					return true
+				}
+			}
+		}
+	}
+	return false
 }
 
 func isWellFormedTF(root any, tf string) bool {
@@ -1533,6 +1560,9 @@ func genHeap(prof string) genFunc {
 	return func(r *R, n int, tier string, out *Out) {
 		for i := 0; i < n; i++ {
 			p := heapProgram(r, prof)
+			if prof == "C10" && i == 0 {
+				p = k1Witness(r)
+			}
 			ops := make([]string, len(p.ops))
 			for j, o := range p.ops {
 				ops[j] = o.coq()
@@ -1550,6 +1580,9 @@ func genHeap(prof string) genFunc {
 				Key:        strings.Join(p.lines, "\n"),
 				Tags:       append(tags, fmt.Sprintf("len=%d", len(p.ops)/5*5)),
 			}
+			if p.finding != "" {
+				c.Extra = map[string]any{"finding": p.finding}
+			}
 			out.emit(c)
 		}
 	}
@@ -1559,4 +1592,18 @@ func init() {
 	for _, p := range []string{"C06", "C08", "C10", "C11"} {
 		generators[p] = genHeap(p)
 	}
+}
+
+// the K1 witness, run first on every C10 check: Object(".x", 1).TypeOfTF("..x")
+func k1Witness(r *R) *Prog {
+	p := &Prog{m: &Machine{pred: true}, r: r, prof: "C10", tags: map[string]bool{}}
+	p.do(&Op{Name: "NewObject", Vals: []Operand{{V: vstr(".x")}, {V: vint(1)}}})
+	oc := p.do(&Op{Name: "TypeOfTF", R: 0, TF: "..x"})
+	p.do(&Op{Name: "GetTF", R: 0, TF: "..x"})
+	if oc != "(Ret (OKind KUndefined))" {
+		p.finding = "K1"
+		p.m.fail("TypeOfTF(\"..x\")=%s on a path with an empty segment (object key starting with a sigil)", oc)
+	}
+	p.nontrv = false
+	return p
 }
